@@ -263,10 +263,15 @@ def main(argv=None):
         print(jdump(cases[harness_errors[0][0]])[:500])
         print(harness_errors[0][1])
         return 2
-    if nondet:
+    if nondet and not viols:
         print("HARNESS-ERROR: %d case(s) gave different observations when replayed "
               "in the same process; first: %s" % (len(nondet), jdump(cases[nondet[0]])[:500]))
         return 2
+    if nondet:
+        # violations exist and each of them was itself re-executed; unstable observations elsewhere point at hidden
+        # process state in the code under test (memoised designs, warm-start hints) - say so, but report the verdict
+        print("NOTE: %d non-violating case(s) gave different observations when re-executed in the same process "
+              "(hidden process state?); first: %s" % (len(nondet), jdump(cases[nondet[0]])[:300]))
 
     known_hits = {}
     new = []
